@@ -147,6 +147,51 @@ theorem repeat_of_last_le (b : OB) (r : Int) (d : Nat) (hs : Sorted b.buf)
   simp
   omega
 
+/-! ### refinement to the abstract specification: a stable ordered insert, cut to the capacity -/
+
+/-- The specification `Add` is held against: the new item goes **after every held item whose round is `≤ r`**
+(so items of one round leave in arrival order) and before every item of a higher round. No binary search,
+no index arithmetic. -/
+def stableInsert (l : List Item) (it : Item) : List Item :=
+  l.filter (fun x => decide (x.round ≤ it.round)) ++ it :: l.filter (fun x => !decide (x.round ≤ it.round))
+
+/-- **add_refines_stable_insert**: on every sorted buffer the coded `Add` (binary search, shift, truncate) is the
+stable ordered insert cut to `max`, unless the repeat test swallows the item. -/
+theorem add_refines_stable_insert (b : OB) (r : Int) (d : Nat) (hs : Sorted b.buf)
+    (hrep : isRepeat b.buf (search b.buf r) d = false) :
+    (add b r d).buf = (stableInsert b.buf ⟨r, d⟩).take b.max := by
+  have h := (full_drops_only_highest b r d hs hrep).1
+  obtain ⟨h1, h2⟩ := search_split hs r
+  rw [h]
+  unfold stableInsert insertAt
+  simp only
+  rw [h1, h2]
+
+/-- **fifo_within_round**: after a non-repeat `Add` that does not overflow, the buffer is `pre ++ new :: post` where
+`pre` holds exactly the old items with round `≤ r` in their old order and `post` the old items with a higher round:
+nothing held earlier with the same round is overtaken by the new item. -/
+theorem fifo_within_round (b : OB) (r : Int) (d : Nat) (hs : Sorted b.buf)
+    (hrep : isRepeat b.buf (search b.buf r) d = false) (hroom : b.buf.length < b.max) :
+    ∃ pre post, (add b r d).buf = pre ++ ⟨r, d⟩ :: post ∧ b.buf = pre ++ post ∧
+      (∀ x ∈ pre, x.round ≤ r) ∧ (∀ y ∈ post, r < y.round) := by
+  obtain ⟨hle, hlo, hhi⟩ := search_spec hs r
+  refine ⟨b.buf.take (search b.buf r), b.buf.drop (search b.buf r), ?_, (List.take_append_drop _ _).symm, ?_, ?_⟩
+  · rw [(full_drops_only_highest b r d hs hrep).1]
+    apply List.take_of_length_le
+    have := insertAt_length b.buf (search b.buf r) ⟨r, d⟩ hle
+    unfold insertAt at this ⊢
+    omega
+  · intro x hx
+    obtain ⟨i, hip, _, rfl⟩ := mem_take_getD hx
+    exact hlo i hip
+  · intro y hy
+    obtain ⟨i, hpi, hil, rfl⟩ := mem_drop_getD hy
+    exact hhi i hpi hil
+
+-- non-vacuity and a reading aid: two blocks of round 4 leave in arrival order
+example : (run (new 4) [.add 4 1, .add 9 2, .add 4 3]).buf = [⟨4, 1⟩, ⟨4, 3⟩, ⟨9, 2⟩] := by decide
+example : stableInsert [⟨4, 1⟩, ⟨9, 2⟩] ⟨4, 3⟩ = [⟨4, 1⟩, ⟨4, 3⟩, ⟨9, 2⟩] := by decide
+
 /-- What the code does for ill-formed input (same data, different round): the second add is
 swallowed. Stated for information; blocks never produce it because a block's identity fixes its round. -/
 theorem repeat_ignores_round_illformed :
